@@ -16,7 +16,7 @@ RULE = ('molecule (corpus / curated / generator / ring assemblies, normal state)
         'two-atom queries with bond primitives (- = # : ~, two-order lists, negation, ;@ ;!@), each rendered as SMARTS text AND built '
         'through the query API; the set of matched atoms / ordered atom pairs must equal the set selected by an independently '
         'computed attribute vector. plus: stereo-marked queries against both enantiomers, and every bracket/bond token string up '
-        'to 3 tokens for the reject-or-query clause. non-trivial = the query selects a proper non-empty subset; distinct by '
+        'periodic-table sweep of element / #n / element lists / A / M; ring marks combined with cis/trans marks on one bond; QueryElement.from_atom with drawn flags. to 3 tokens for the reject-or-query clause. non-trivial = the query selects a proper non-empty subset; distinct by '
         '(query text, molecule string)')
 ASSUMPTIONS = ['attribute vectors: neighbours/heteroatoms/hybridisation from the adjacency by the documented definitions, ring '
                'membership and sizes from vf/oracles/mcb.py (ring-size primitives only where the minimum cycle basis is unique), '
